@@ -59,6 +59,75 @@ def correspondences(tier, rng):
         mcmap.computeMegaCmap(mg, tables)
         return [(u, g) for u, g in mg.cmap.items()]
     out.append(Corr("computeMegaCmap", cases, impl_cmap))
+    # layout: mergeScriptRecords over the real otTables objects (scripts -> language systems -> features -> lookups)
+    from fontTools.merge import layout as mlayout
+    from fontTools.ttLib.tables import otTables as ot
+    TAGS = ["DFLT", "latn", "cyrl", "grek", "arab"]; LANGS = ["AZE ", "CRT ", "KAZ ", "TRK ", "ROM ", "NLD "]; FEATS = ["liga", "kern", "locl", "ccmp", "calt"]
+    tagz = lambda t: int.from_bytes(t.encode("ascii"), "big")
+    def gen_lang(lk):
+        feats = []
+        for _ in range(rng.randint(0, 4)):
+            feats.append((rng.choice(FEATS), [next(lk) for _ in range(rng.randint(0, 3))]))
+        return (0xFFFF if rng.chance(92) else rng.randint(0, 3), feats)
+    def counter():
+        i = 0
+        while True:
+            i += 1; yield i
+    cases = []
+    for _ in range(N(tier, 500, 6000)):
+        lk = counter(); fonts = []
+        for _f in range(rng.randint(1, 4)):
+            scripts = []
+            for st in rng.sample(TAGS, rng.randint(0, 3)):
+                recs = [(lt, gen_lang(lk)) for lt in rng.sample(LANGS, rng.randint(0, 3))]      # any order, as a font may carry them
+                scripts.append((st, (gen_lang(lk) if rng.chance(70) else None, recs)))
+            fonts.append(scripts)
+        cases.append(fonts)
+    def enc_scripts(fonts):
+        return [[(tagz(st), (Opt(None) if d is None else Opt((d[0], [(tagz(ft), lks) for ft, lks in d[1]]), some=True),
+                             [(tagz(lt), (l[0], [(tagz(ft), lks) for ft, lks in l[1]])) for lt, l in recs])) for st, (d, recs) in scripts] for scripts in fonts]
+    def mk_lang(l):
+        o = ot.LangSys(); o.LookupOrder = None; o.ReqFeatureIndex = l[0]; o.FeatureIndex = []
+        for ft, lks in l[1]:
+            r = ot.FeatureRecord(); r.FeatureTag = ft; r.Feature = ot.Feature(); r.Feature.FeatureParams = None; r.Feature.LookupListIndex = list(lks); o.FeatureIndex.append(r)
+        o.FeatureCount = len(o.FeatureIndex); return o
+    def un_lang(o): return (o.ReqFeatureIndex, [(tagz(r.FeatureTag), list(r.Feature.LookupListIndex)) for r in o.FeatureIndex])
+    def impl_scripts(fonts):
+        def go():
+            lst = []
+            for scripts in fonts:
+                recs_ = []
+                for st, (d, recs) in scripts:
+                    sr = ot.ScriptRecord(); sr.ScriptTag = st; sr.Script = ot.Script()
+                    sr.Script.DefaultLangSys = mk_lang(d) if d is not None else None
+                    sr.Script.LangSysRecord = []
+                    for lt, l in recs:
+                        lr = ot.LangSysRecord(); lr.LangSysTag = lt; lr.LangSys = mk_lang(l); sr.Script.LangSysRecord.append(lr)
+                    recs_.append(sr)
+                lst.append(recs_)
+            merged = mlayout.mergeScriptRecords(lst)
+            return [(tagz(sr.ScriptTag), (Opt(un_lang(sr.Script.DefaultLangSys), some=True) if sr.Script.DefaultLangSys is not None else Opt(None),
+                                          [(tagz(lr.LangSysTag), un_lang(lr.LangSys)) for lr in sr.Script.LangSysRecord])) for sr in merged]
+        return res(go)
+    def oracle_scripts(fonts):
+        """the PROPERTY on the implementation: whenever a script was merged from several inputs its language systems are in tag order
+        (a shaper finds them by binary search), and so are the scripts and each merged language system's features"""
+        r = impl_scripts(fonts)
+        if isinstance(r, Err): return None
+        tags = [t for t, _ in r.v]
+        if tags != sorted(set(tags)): return "merged script records are not in strict tag order: %r" % (tags,)
+        contributors = {}
+        for scripts in fonts:
+            for st, _ in scripts: contributors[tagz(st)] = contributors.get(tagz(st), 0) + 1
+        for t, (d, recs) in r.v:
+            if contributors[t] < 2: continue
+            lt = [x for x, _ in recs]
+            if lt != sorted(set(lt)): return "language systems of merged script %08x are not in strict tag order: %r" % (t, lt)
+            for _, l in recs + ([(0, d.v)] if d.some else []):
+                ft = [x for x, _ in l[1]]
+                if ft != sorted(set(ft)): return "features of a merged language system are not in strict tag order: %r" % (ft,)
+        return None
+    out.append(Corr("mergeScriptRecords", cases, impl_scripts, enc=enc_scripts, oracle=oracle_scripts))
     return out
 
 # ------------------------------------------------------------------ sweeps
